@@ -74,16 +74,31 @@ class PtrDomain(Domain):
             if re.search(r"freed:\[[^\]]*\]", st):
                 pass
 
+    def _check_freed(self, flow, s, strings, node, what):
+        """a member at offset 0 of an object that was returned to its pool holds the pool's free-list link"""
+        for (kk, obj), first in [(k, v_) for k, v_ in s.d.items() if k[0] == "freedfirst"]:
+            for st in strings:
+                if not isinstance(st, str):
+                    continue
+                for mem in first:
+                    if re.search(r"(?<![\w>.])" + re.escape(obj) + r"->" + re.escape(mem) + r"(?![\w])", st):
+                        self.out["findings"].append(("R-C10-2", self.root.name, "use-after-free:first-word:%s" % flow.cur_func().name,
+                                                     "%s reads '%s->%s' after '%s' was returned to its pool: returning an object "
+                                                     "overwrites its first word with the free-list link, and '%s' lives in that word"
+                                                     % (what, obj, mem, obj, mem), self.m.rel(loc(node))))
+
     def store(self, flow, s, lc, lhs, value, rhs, op, node):
         self._check_use(flow, s, [lc, value or ""], node, "a store")
+        self._check_freed(flow, s, [value or ""], node, "a store")
         return [s]
 
     def assume(self, flow, s, cond, truth):
         self._check_use(flow, s, [flow.canon(s, cond)], cond, "a test")
+        self._check_freed(flow, s, [flow.canon(s, cond)], cond, "a test")
         return [s]
 
     def at_return(self, flow, s, node, value):
-        pass
+        self._check_freed(flow, s, [value or ""], node, "a return")
 
     def call(self, flow, s, call, name, args):
         if name == "cmi_assert_failed":
@@ -91,6 +106,7 @@ class PtrDomain(Domain):
         s = s.copy()
         callee_str = flow.canon(s, kids(call)[0]) if name is None else ""
         self._check_use(flow, s, list(args) + [callee_str], call, "a call")
+        self._check_freed(flow, s, list(args) + [callee_str], call, "a call")
         key = self.m.resolve(flow.cur_unit(), name) if name else None
         where = self.m.rel(loc(call))
         # pointer origins seen (for the instance count)
@@ -136,6 +152,13 @@ class PtrDomain(Domain):
                 self.out["findings"].append(("R-C10-2", self.root.name, "double-free:%s" % flow.cur_func().name,
                                              "object '%s' is returned to %s twice" % (obj, pool), where))
             s.d[("freed", obj)] = pool
+            t_ = (kids(call)[2].get("type") or "") if len(kids(call)) > 2 else ""
+            a2 = strip(kids(call)[2], casts=True) if len(kids(call)) > 2 else None
+            if a2 is not None and "struct " not in t_:
+                t_ = a2.get("type") or ""
+            mm_ = re.search(r"struct (\w+) \*", t_)
+            if mm_:
+                s.d[("freedfirst", obj)] = tuple(sorted(self.m.first_word_members(mm_.group(1))))
             s._k = None
         else:
             for (kk, obj), pool in [(k, v_) for k, v_ in s.d.items() if k[0] == "freed"]:
